@@ -265,6 +265,7 @@ def _scan_tokens(rows_tok):
     return [[] if r == "-" else [int(x) for x in r.split(",")] for r in rows_tok.split(";")]
 
 
+_WALLET_CTX_OPS = {"w.bip32", "w.bip32.pos", "w.key", "w.script", "w.script.pos", "w.desc.pos"}
 _SCAN_CTX: dict = {}   # op line -> precomputed implementation answer (scan ops are answered from real objects)
 
 
@@ -324,6 +325,25 @@ def impl(line: str) -> str:  # noqa: PLR0911, PLR0912
             except Unsupported:
                 return "unsupported"
             return f"ok {T(str(D.at_index(d, int(t[3]))))} {1 if d.is_ranged else 0}"
+        if op == "desc.spk":
+            prv = None if t[2] == "_" else {unT(a): unT(b) for a, b in (e.split("=") for e in t[2].split(";"))}
+            net = t[5]
+            d = D.parse(unT(t[3]), net)
+            try:
+                r_desc(d)
+            except Unsupported:
+                return "unsupported"
+            sp = d.script_pub_keys(int(t[4]), prv)
+            addrs = []
+            for x in sp:
+                try:
+                    a = x.address
+                    addrs.append(T(a) if a else "-")
+                except Exception:  # noqa: BLE001
+                    addrs.append("!")
+            return "ok " + ";".join(hx(x.script) for x in sp) + " | " + ";".join(addrs)
+        if op in _WALLET_CTX_OPS:
+            return _SCAN_CTX[line]
         if op == "multipath":
             return "ok " + ";".join(T(x) for x in D.multipath_descriptors(unT(t[1])))
         if op.startswith("scan."):
@@ -1180,6 +1200,7 @@ def run(ctx):  # noqa: PLR0912, PLR0915
             specs.append((net, spec, canonical))
     texts = []
     n_flip = 0
+    spk_lines = []
     for net, spec, canonical in specs:
         text = spec_text(spec)
         if rng.random() < 0.5:
@@ -1191,9 +1212,17 @@ def run(ctx):  # noqa: PLR0912, PLR0915
         ranged = _ranged(spec)
         idxs = indexes_for(rng, ranged) + _flip_indexes(spec)
         n_flip += len(idxs) - len(indexes_for(rng, ranged)) if ranged else 0
+        prv_tok = ";".join(f"{T(a)}={T(b)}" for a, b in prv.items()) if prv else "_"
+        at = atoms_for(text)
         for i in idxs:
-            ctx.check("derive", {"text": text, "network": net, "prv": prv if (needs or rng.random() < 0.3) else None,
+            use_prv = needs or rng.random() < 0.3
+            ctx.check("derive", {"text": text, "network": net, "prv": prv if use_prv else None,
                                  "index": i, "expect": _expected(spec, i, net)})
+            if len(spk_lines) < ctx.n(260, 2500) and (i in (0, 1, H - 1) or rng.random() < 0.35):
+                spk_lines.append(f"desc.spk {at} {prv_tok if use_prv else '_'} {T(text)} {i} {net}")
+        if rng.random() < 0.3:   # refusals: index out of range, another network, hardened without the keys
+            spk_lines.append(f"desc.spk {at} _ {T(text)} {rng.choice([H, 1])} {net}")
+            spk_lines.append(f"desc.spk {at} _ {T(text)} 0 {rng.choice(NETS)}")
         if not ranged:
             ctx.check("derive", {"text": text, "network": net, "prv": None, "index": 1, "expect": None})
         ctx.check("derive", {"text": text, "network": net, "prv": prv, "index": H, "expect": None})
@@ -1209,6 +1238,7 @@ def run(ctx):  # noqa: PLR0912, PLR0915
         if odd:
             ctx.count("roundtrip", "wif-odd-y-in-taproot-position")
     ctx.count("sortedmulti", "flip-indexes", n_flip)
+    stream(ctx, "desc.spk", spk_lines)
 
     # ---- sortedmulti with many keys: flips are certain
     g = Gen(rng, "mainnet")
@@ -1398,9 +1428,21 @@ def _multipath_case(ctx, g, net):
                             "scripts": scripts})
 
 
+def _ctx_line(lines, ln, fn):
+    """a wallet op line answered by the real wallet object (kept in _SCAN_CTX for impl())."""
+    try:
+        v = fn()
+        out = "ok None" if v is None else ("ok " + (hx(v) if isinstance(v, bytes) else " ".join(str(x) for x in v)))
+    except Exception as e:  # noqa: BLE001
+        out = _err(e)
+    _SCAN_CTX[ln] = out
+    lines.append(ln)
+
+
 def wallet_batch(ctx):
     rng = ctx.rng
     scan_lines = []
+    wlines = []
     for net in NETS:
         g = Gen(rng, net)
         coin = 0 if net == "mainnet" else 1
@@ -1418,6 +1460,13 @@ def wallet_batch(ctx):
                   "beyond": True}
             ctx.check("wallet", w1)
             ctx.count("wallet", "bip32")
+            kw_ = _build_wallet(w1)
+            xt = T(kw_._xkey.b58encode())
+            for b, i in ask + [(0, 0xFFFF), (0, 0x10000), (2, 0)]:
+                _ctx_line(wlines, f"w.bip32 {stype} {xt} {b} {i}", lambda b=b, i=i: kw_.script_pub_key(b, i).script)
+            own = kw_.script_pub_key(1, last).script
+            for q in (own, kw_.script_pub_key(0, 0).script, bytes.fromhex(foreign[0])):
+                _ctx_line(wlines, f"w.bip32.pos {stype} {xt} {last} {hx(q)}", lambda q=q: kw_.position_of(q, last))
             w2 = {"kind": "account", "xkey": xkey, "path": path, "fp": fp, "last": last, "ask": ask,
                   "foreign": foreign, "beyond": True}
             ctx.check("wallet", w2)
@@ -1472,6 +1521,18 @@ def wallet_batch(ctx):
             ctx.count("wallet", "script")
             # the scan itself, against the model
             wal = _build_wallet(w)
+            toks = []
+            for c in wal.template:
+                if isinstance(c, KeyGroup):
+                    toks.append(f"g:{c.threshold}:{1 if c.verify else 0}:" + "+".join(T(k.b58encode()) for k in c.keys))
+                else:
+                    toks.append("b:" + hx(serialize([c])))
+            tm = ";".join(toks)
+            for b, i in ask + [(0, 0xFFFF), (1, 0x10000)]:
+                _ctx_line(wlines, f"w.script {stype} {order} {tm} {b} {i}",
+                          lambda b=b, i=i: wal.script_pub_key(b, i).script)
+            for q in (wal.script_pub_key(1, last).script, bytes.fromhex(w["foreign"][0])):
+                _ctx_line(wlines, f"w.script.pos {stype} {order} {tm} {last} {hx(q)}", lambda q=q: wal.position_of(q, last))
             table = [[wal.script_pub_key(b, i).script for i in range(last + 1)] for b in wal.branches]
             ids = {}
             for row in table:
@@ -1582,6 +1643,35 @@ def wallet_batch(ctx):
             lines.append(ln)
     stream(ctx, "scan.dpos.repeated", lines)
 
+    # descriptor wallets end to end: parse + derive + scan, all in the model
+    g = Gen(rng, "mainnet")
+    for _ in range(ctx.n(8, 60)):
+        ctexts, prv = [], {}
+        for _ in range(rng.choice([1, 2])):
+            spec = g.script_expr("top", True)
+            while spec[0] in ("combo", "addr", "raw"):
+                spec = g.script_expr("top", True)
+            ctexts.append(spec_text(spec))
+            if any(k.needs_prv for k in spec_keys(spec)):
+                prv.update(prv_keys_of(spec))
+        try:
+            wal = DescriptorWallet([D.parse(t_, "mainnet") for t_ in ctexts], prv or None)
+        except BTClibValueError:
+            continue
+        last = rng.choice([0, 1, 2])
+        prv_tok = ";".join(f"{T(a)}={T(b)}" for a, b in prv.items()) if prv else "_"
+        at = atoms_for("|".join(ctexts).replace("|", ","))
+        b_ = wal.branches[-1]
+        d_ = wal.descriptor(b_)
+        try:
+            own = wal.script_pub_key(b_, last if d_.is_ranged else 0).script
+        except BTClibValueError:
+            continue
+        for q in (own, common.rand_bytes(rng, 22)):
+            _ctx_line(wlines, f"w.desc.pos {at} {prv_tok} mainnet {last} {hx(q)} " + ";".join(T(t_) for t_ in ctexts),
+                      lambda q=q: wal.position_of(q, last))
+    stream(ctx, "wallet.model", wlines)
+
     # loose keys: a KeyWallet hands out one address per key and remembers it
     for net in NETS[:2]:
         g = Gen(rng, net)
@@ -1595,6 +1685,7 @@ def wallet_batch(ctx):
             ctx.oracle("wallet.key", ok, f"KeyWallet {stype} address {addr}",
                        witness={"oracle": "wallet.key", "witness": {"sec": k.sec.hex(), "type": stype, "network": net}})
             ctx.count("wallet", "key")
+            _ctx_line(wlines, f"w.key {stype} {hx(k.sec)}", lambda addr=addr: ScriptPubKey.from_address(addr).script)
 
 
 _MS = [
